@@ -4,6 +4,7 @@ import SieveModel.Model.Show
 import SieveModel.Generated.Tables
 import SieveModel.Generated.LexRules
 import SieveModel.Lemmas.Brackets
+import SieveModel.Lemmas.Roles
 /-!
 # C01 — the parser accepts exactly the valid scripts
 
@@ -17,7 +18,15 @@ the parse suite).  Proved here, for every table and every input:
   are balanced and properly nested (each closer matches the innermost opener; the parser's bracket
   stack follows the token stream exactly: `token_moves_the_bracket_stack_by_its_nesting_step`);
   `accepted_scripts_end_outside_any_command` — at acceptance no command is pending and nothing is
-  expected.
+  expected;
+  `accepted_scripts_have_commands_and_tests_in_their_roles` — in the tree of an accepted script every
+  name resolves in the table, every top-level command and every child of a block is a control or an
+  action, every node in test position is a test, blocks hang only under definitions that accept
+  children, and a command that must follow certain commands comes directly after a sibling with one of
+  those names (so: a test in command position, an action in test position, a block after an action and
+  `elsif`/`else` not after `if`/`elsif` are all rejected, whatever surrounds them).  The relation is
+  threaded through every parser step by `Lemmas/StackThread.lean`; the only condition on the table is
+  that names identify definitions, discharged for the live table by the kernel.
 -/
 namespace C01
 
@@ -53,6 +62,80 @@ theorem accepted_scripts_end_outside_any_command (s : PState) (e n : Nat) (r : L
       cases hs : s.stack with
       | cons f rest => rw [hs] at h; simp at h
       | nil => rw [hs] at h; simp at h; exact ⟨rfl, rfl, rfl, h.symm⟩
+
+/-- in the table regenerated from `/repo` a definition is found under its own name -/
+theorem live_table_names_identify_definitions : Roles.TableN Generated.builtinTable := by decide +kernel
+
+/-- **roles and positions**: the tree of an accepted script has controls/actions in command position,
+    tests in test position, blocks only under block owners, and `must_follow` respected by every sibling list -/
+theorem accepted_scripts_have_commands_and_tests_in_their_roles (T : Table) (hT : Roles.TableN T) (text : Bytes)
+    (prev : PState) (r : List Node) (h : Machine.parse T text prev = .accept r) :
+    Roles.SibOK T r ∧ ∀ n ∈ r, Roles.isCmd T n ∧ Roles.NodeR T n :=
+  Roles.accepted_tree_roles hT text prev r h
+
+theorem accepted_scripts_have_commands_and_tests_in_their_roles_live (text : Bytes) (prev : PState) (r : List Node)
+    (h : Machine.parse Generated.builtinTable text prev = .accept r) :
+    Roles.SibOK Generated.builtinTable r ∧ ∀ n ∈ r, Roles.isCmd Generated.builtinTable n ∧ Roles.NodeR Generated.builtinTable n :=
+  Roles.accepted_tree_roles live_table_names_identify_definitions text prev r h
+
+/-- what `NodeR` says about one node, spelled out -/
+theorem role_facts_of_a_node (T : Table) (name : Bytes) (args extra : List Arg) (children : List Node) (c : List Bytes)
+    (h : Roles.NodeR T (.mk name args extra children c)) :
+    ∃ d, T.byName name = some d ∧
+      (children ≠ [] → d.acceptChildren = true) ∧
+      (∀ ch ∈ children, Roles.isCmd T ch ∧ Roles.NodeR T ch) ∧
+      Roles.SibOK T children ∧
+      (∀ k n, Arg.test k n ∈ args ++ extra → Roles.isTest T n ∧ Roles.NodeR T n) ∧
+      (∀ k l, Arg.tests k l ∈ args ++ extra → ∀ n ∈ l, Roles.isTest T n ∧ Roles.NodeR T n) := by
+  cases h with
+  | mk _ _ _ _ _ d hd hkidsK hkids hblock hsib hargsK hargs harglK hargl =>
+    exact ⟨d, hd, hblock, fun ch hc => ⟨hkidsK ch hc, hkids ch hc⟩, hsib,
+      fun k n hm => ⟨hargsK k n hm, hargs k n hm⟩, fun k l hm n hn => ⟨harglK k l hm n hn, hargl k l hm n hn⟩⟩
+
+/-- a node cannot be both in a command role and in a test role -/
+theorem roles_are_exclusive (T : Table) (n : Node) (h1 : Roles.isCmd T n) (h2 : Roles.isTest T n) : False := by
+  obtain ⟨d, hd, hk⟩ := h1
+  obtain ⟨d', hd', hk'⟩ := h2
+  rw [hd] at hd'
+  cases hd'
+  exact hk hk'
+
+/-- in the live language `else` and `elsif` come directly after an `if` or an `elsif`, in every sibling list
+    (top level or block) of every accepted script -/
+theorem else_and_elsif_come_directly_after_if_or_elsif (l pre post : List Node) (n : Node)
+    (h : Roles.SibOK Generated.builtinTable l) (hl : l = pre ++ n :: post)
+    (hn : n.name = sb "else" ∨ n.name = sb "elsif") :
+    ∃ p, Machine.lastName pre = some p ∧ (p = sb "if" ∨ p = sb "elsif") := by
+  have h1 : (Generated.builtinTable.byName (sb "else")).map (·.mustFollow) = some (some [sb "if", sb "elsif"]) := by
+    decide +kernel
+  have h2 : (Generated.builtinTable.byName (sb "elsif")).map (·.mustFollow) = some (some [sb "if", sb "elsif"]) := by
+    decide +kernel
+  have hmf : ∃ d, Generated.builtinTable.byName n.name = some d ∧ d.mustFollow = some [sb "if", sb "elsif"] := by
+    rcases hn with hn | hn <;> rw [hn]
+    · cases hb : Generated.builtinTable.byName (sb "else") with
+      | none => rw [hb] at h1; simp at h1
+      | some d => rw [hb] at h1; exact ⟨d, rfl, by simpa using h1⟩
+    · cases hb : Generated.builtinTable.byName (sb "elsif") with
+      | none => rw [hb] at h2; simp at h2
+      | some d => rw [hb] at h2; exact ⟨d, rfl, by simpa using h2⟩
+  obtain ⟨d, hd, hm⟩ := hmf
+  have hf := h pre n post hl d hd
+  unfold Machine.followOk at hf
+  rw [hm] at hf
+  simp only at hf
+  cases hp : Machine.lastName pre with
+  | none => rw [hp] at hf; simp at hf
+  | some p =>
+    rw [hp] at hf
+    refine ⟨p, rfl, ?_⟩
+    have : p ∈ [sb "if", sb "elsif"] := by simpa using hf
+    simpa using this
+
+/-- non-vacuity: a script with `if … else …` is accepted by the model on the live table -/
+example : Show.outcome (sb "if true { keep; } else { stop; }")
+      (Machine.parse Generated.builtinTable (sb "if true { keep; } else { stop; }"))
+    = "accept (6966 A[test=t:(74727565 A[] E[] C[] H[]);] E[] C[(6b656570 A[] E[] C[] H[])] H[])(656c7365 A[] E[] C[(73746f70 A[] E[] C[] H[])] H[])" := by
+  decide +kernel
 
 /-- non-vacuity of the nesting discipline: `( [ ] )` is balanced, `( [ ) ]` is not -/
 example : Brackets.Balanced [.left_parenthesis, .left_bracket, .right_bracket, .right_parenthesis] := by unfold Brackets.Balanced; decide
